@@ -73,6 +73,7 @@ type caseCtx struct {
 	// lazily computed
 	badParserRanges map[string]map[hcl.Range]bool
 	nodeSpans       map[string][]nodeSpan
+	nodeRanges      map[string]map[hcl.Range]bool
 }
 
 func (c *caseCtx) witness(sig, what string, q core.Query, extra func(w *runner.Witness)) *runner.Witness {
@@ -504,6 +505,35 @@ func (c *caseCtx) parserBad(path, file string) map[hcl.Range]bool {
 		}
 		return nil
 	})
+	return m
+}
+
+// nodeRangeSet holds the range of every AST node of a file.
+func (c *caseCtx) nodeRangeSet(path, file string) map[hcl.Range]bool {
+	if c.nodeRanges == nil {
+		c.nodeRanges = map[string]map[hcl.Range]bool{}
+	}
+	key := path + "\x00" + file
+	if m, ok := c.nodeRanges[key]; ok {
+		return m
+	}
+	m := map[hcl.Range]bool{}
+	c.nodeRanges[key] = m
+	pc := c.Env.PathCtx[path]
+	if pc == nil || pc.Files[file] == nil {
+		return m
+	}
+	if body, ok := pc.Files[file].Body.(*hclsyntax.Body); ok {
+		hclsyntax.VisitAll(body, func(n hclsyntax.Node) hcl.Diagnostics {
+			m[n.Range()] = true
+			if oc, ok := n.(*hclsyntax.ObjectConsExpr); ok {
+				for _, it := range oc.Items {
+					m[it.KeyExpr.Range()] = true
+				}
+			}
+			return nil
+		})
+	}
 	return m
 }
 
